@@ -86,14 +86,15 @@ func (e *Env) Get(symbol string) (interface{}, error) {
 func (e *Env) GetValue(symbol string) (reflect.Value, error) {
 	e.rwMutex.RLock()
 	value, ok := e.values[symbol]
+	externalLookup := e.externalLookup
 	e.rwMutex.RUnlock()
 	if ok {
 		return value, nil
 	}
 
-	if e.externalLookup != nil {
+	if externalLookup != nil {
 		var err error
-		value, err = e.externalLookup.Get(symbol)
+		value, err = externalLookup.Get(symbol)
 		if err == nil {
 			return value, nil
 		}
